@@ -96,6 +96,7 @@ def scenarios():
 
 class C14(Prop):
     id = "C14"
+    once_kinds = ("enumerate", "strace")
     level = "fault_enumeration"
     rule = ("cases: 22 scenarios x {fault at every file-system audit event, crash (fork + _exit) at every file-system audit event, "
             "crash at every executed line inside flowmark/reformat_api.py + strif + pathlib during the run}; each injection "
